@@ -425,7 +425,110 @@ MUTATORS = {"update", "pop", "popitem", "clear", "setdefault", "__setitem__",
             "__delitem__"}
 
 
+def _judge_substitute(model, fn, module):
+    """interpretive judge: substitute() is interpreted with the lookup factory
+    and the mapper class as hooks.  Whatever it is written like, the table the
+    lookup is made from holds exactly the caller's entries -- keys as given: a
+    name stays a name, a node stays that node -- with the keyword assignments
+    over them; the caller's mapping is left as it was; the result is
+    mapper_cls(make_subst_func(table))(expression).  -> witnesses"""
+    from ..absint import Interp, Obj, Opaque, Raised, StepBound, module_env
+
+    class Node:
+        def __init__(self, name):
+            self.name = name
+
+        def __repr__(self):
+            return f"<node {self.name}>"
+    wit = []
+    glob = module_env(module.tree, {})
+    params = [a.arg for a in fn.args.args]
+    kx = Node("kx")
+    scenarios = [
+        ("a mapping with a node key and a name key, no keywords",
+         {kx: "R1", "y": "R2"}, {}),
+        ("a mapping and keyword assignments, one of them for a name of the "
+         "mapping", {kx: "R1", "y": "R2"}, {"y": "R3", "z": 0}),
+        ("keyword assignments only", None, {"z": "R4"}),
+        ("neither", None, {}),
+        ("an empty mapping and a falsy keyword value", {}, {"z": 0}),
+    ]
+    for label, table, kw in scenarios:
+        seen = []
+        orig = None if table is None else dict(table)
+
+        def make(it, nd, a, k, seen=seen):
+            if len(a) != 1 or k or not isinstance(a[0], dict):
+                raise AnalysisError("make_subst_func(...) call shape")
+            seen.append(dict(a[0]))
+            return ("lookup", len(seen) - 1)
+
+        def mvar(it, nd, a, k):
+            return Obj("Variable", {"name": a[0] if a else k.get("name")})
+        calls = {"make_subst_func": make}
+        for nm in ("Variable", "make_variable", "var"):
+            for pre in ("", "primitives.", "p.", "prim.", "pymbolic.",
+                        "pymbolic.primitives."):
+                calls[pre + nm] = mvar
+        it = Interp(calls=calls, attrs=lambda it_, n_, b, a: Opaque(
+            ast.unparse(n_)), globals_=glob, max_steps=8000)
+        mapper_cls = lambda f: (lambda e: ("applied", f, e))   # noqa: E731
+        try:
+            got = it.call_function(
+                fn, ["EXPR", table],
+                dict(glob, __kwargs__=dict(kw, mapper_cls=mapper_cls)))
+        except Raised as r:
+            wit.append(f"{label}: raises at line "
+                       f"{getattr(r.node, 'lineno', '?')}")
+            continue
+        except StepBound:
+            wit.append(f"{label}: does not terminate")
+            continue
+        if table is not None and table != orig:
+            wit.append(f"{label}: the caller's mapping is changed")
+            continue
+        want = dict(orig or {})
+        want.update(kw)
+        if got == "EXPR" and not want:
+            continue                     # nothing to substitute
+        if not (isinstance(got, tuple) and len(got) == 3 and
+                got[0] == "applied" and got[2] == "EXPR" and
+                isinstance(got[1], tuple) and got[1][0] == "lookup"):
+            wit.append(f"{label}: the result is {got!r}, not "
+                       "mapper_cls(make_subst_func(table))(expression)")
+            continue
+        tab = seen[got[1][1]]
+        bad = [k_ for k_ in want if k_ not in tab or tab[k_] != want[k_]
+               or type(tab[k_]) is not type(want[k_])]
+        if bad or len(tab) != len(want):
+            wit.append(f"{label}: the lookup is made from {tab!r}, the "
+                       f"caller's entries are {want!r}")
+    return wit
+
+
 def _check_substitute(ctx, model):
+    m0, fn0 = model.func(f"{SUB}:substitute")
+    wit = None
+    try:
+        wit = _judge_substitute(model, fn0, m0)
+    except AnalysisError as e:
+        ctx.extra["judge_unavailable:substitute"] = str(e)   # rules decide
+    if wit is not None:
+        ctx.ob("P0/substitute/table-semantics", not wit, m0.loc(fn0),
+               "interpreted on 5 combinations of mapping and keyword "
+               "assignments: the lookup is made from the caller's entries, "
+               "keys as given, keywords over them; the caller's mapping is "
+               "untouched" if not wit else
+               "substitute(): " + "; ".join(wit[:3]))
+    mark = len(ctx.obs)
+    _check_substitute_structural(ctx, model)
+    if wit is not None and not wit:
+        ctx.withdraw_failures_since(
+            mark, "the interpreted substitute() has the required table "
+            "semantics", prefix="P/substitute/")
+
+
+def _check_substitute_structural(ctx, model):
     """path rules on substitute(): the caller's mapping is never written to;
     the table handed to make_subst_func holds the keyword assignments; the
     result is mapper_cls(make_subst_func(table))(expression)"""
